@@ -260,7 +260,7 @@ pub fn decode_case(data: &[u8], faults: bool, leaks: bool) -> Result<Case> {
             ops.push(op);
         }
     }
-    Ok(Case { kind, hasher, universe, ctor: Ctor { how, init }, ops, faults: vec![], drain_every: 3, drain_bits: 0x9696_9696_5a5a_5a5a })
+    Ok(Case { kind, hasher, universe, ctor: Ctor { how, init }, ops, faults: vec![], drain_every: 3, drain_bits: 0x9696_9696_5a5a_5a5a, pad: 0 })
 }
 
 /// Entry point of the libFuzzer target. PQV_PROP selects the property (default 0 = every clause),
